@@ -102,6 +102,10 @@ def run_case(ctx, rep, case, base, model_ok):
         old = case["aged"][a - 1]
         if old:
             _age(path, rel)
+            if case.get("age_markers"):
+                # a transaction open for two hours: its MARKER is as old as its file (far below the 24 h abandonment timeout)
+                for m_ in os.listdir(os.path.join(path, "metadata", "inflight")):
+                    _age(path, os.path.join("metadata", "inflight", m_))
         prefix += [f"{a}:marker:{fid(rel)}:{1 if old else 0}", f"{a}:write:{fid(rel)}"]
         handles[a], txs[a] = h, tx
     g = tablekit.load(path)
@@ -210,12 +214,15 @@ def run_case(ctx, rep, case, base, model_ok):
 def cases(ctx):
     rng = ctx.rng("cases")
     out = [{"txs": 1, "aged": [True], "rollback": [False], "chooser": _collector_first_reads(None)},
+           {"txs": 1, "aged": [True], "rollback": [False], "age_markers": True},
+           {"txs": 2, "aged": [True, True], "rollback": [False, False], "age_markers": True},
            {"txs": 1, "aged": [False], "rollback": [False], "chooser": _collector_first_reads(None)},
            {"txs": 2, "aged": [True, True], "rollback": [False, False], "chooser": _collector_first_reads(None)},
            {"txs": 1, "aged": [True], "rollback": [True]}]
     for _ in range(ctx.budget(40, 1500)):
         n = rng.choice([1, 1, 2])
-        out.append({"txs": n, "aged": [rng.random() < 0.7 for _ in range(n)], "rollback": [rng.random() < 0.15 for _ in range(n)]})
+        out.append({"txs": n, "aged": [rng.random() < 0.7 for _ in range(n)], "rollback": [rng.random() < 0.15 for _ in range(n)],
+                    "age_markers": rng.random() < 0.5})
     for i, c in enumerate(out):
         c["id"] = i
     return out
@@ -232,7 +239,7 @@ def run(ctx, model_ok):
         # directed: a commit that loses the race and retries, with a whole collection placed after each of its gated operations
         k, cid = 0, 100000
         while True:
-            c = {"id": cid, "txs": 2, "aged": [True, True], "rollback": [False, False], "chooser": _retry_then_gc_after(k)}
+            c = {"id": cid, "txs": 2, "aged": [True, True], "rollback": [False, False], "chooser": _retry_then_gc_after(k), "age_markers": k % 4 == 0}
             cid += 1
             try:
                 run_case(ctx, rep, c, base, model_ok)
@@ -242,7 +249,7 @@ def run(ctx, model_ok):
                 break
             if k >= c.get("tx1_gates", 0):
                 break
-            k += 1 if ctx.thorough else 2
+            k += 1 if (ctx.thorough or ctx.intensify) else 2
         for c in cases(ctx):
             try:
                 run_case(ctx, rep, c, base, model_ok)
